@@ -155,8 +155,9 @@ pub fn child_main() {
                 }).unwrap().join().ok();
                 println!("DONE"); std::io::stdout().flush().unwrap();
             }
-            "REPLAY" => {
-                let stack: usize = t[1].parse().unwrap(); let doc = unhex(t[2]);
+            "REPLAY" | "REPLAYF" => {
+                // REPLAYF: the document is read from a file (hex parsing of large documents is very slow under Miri)
+                let stack: usize = t[1].parse().unwrap(); let doc = if t[0] == "REPLAYF" { std::fs::read(t[2]).unwrap() } else { unhex(t[2]) };
                 let ops: Vec<Op> = t[3..].join(" ").split(';').filter(|x| !x.is_empty()).filter_map(parse_op).collect();
                 std::thread::Builder::new().stack_size(stack << 10).spawn(move || {
                     let mut s = Session::new(&doc);
@@ -529,13 +530,15 @@ pub fn run_c11(a: &Args, out: &mut Out) {
         let mut entries = vec![(Wire::Str(str_fmt(&mut r, key.len(), false), key.clone()), { let m = r.chance(70); Wire::Str(str_fmt(&mut r, n, m), s.clone()) })];
         if big_containers {
             let arr: Vec<Wire> = (0..n).map(|k| Wire::Int(IntFmt::PFix, (k % 100) as i128)).collect();
-            let map: Vec<(Wire, Wire)> = (0..n).map(|k| (Wire::Str(StrFmt::Fix, format!("k{}", k).into_bytes()), Wire::Nil)).collect();
+            // tight entries (empty key, one-byte keys, one-byte values); in the map-rooted form this object is the last thing in the input
+            let tight = i % 2 == 1;
+            let map: Vec<(Wire, Wire)> = (0..n).map(|k| (Wire::Str(StrFmt::Fix, if tight && k == 0 { vec![] } else if tight && k < 27 { vec![b'A' + (k as u8 - 1)] } else { format!("k{}", k).into_bytes() }), Wire::Nil)).collect();
             entries.push((Wire::Str(StrFmt::Fix, b"arr".to_vec()), { let m = r.chance(70); Wire::Arr(len_fmt(&mut r, n, m), arr) }));
             entries.push((Wire::Str(StrFmt::Fix, b"map".to_vec()), { let m = r.chance(70); Wire::Map(len_fmt(&mut r, n, m), map) }));
         }
         let tree = if r.chance(50) { Wire::Map(LenFmt::Fix, entries) } else { Wire::Arr(LenFmt::Fix, vec![Wire::Map(LenFmt::Fix, entries), Wire::Str(str_fmt(&mut r, n, true), s.clone())]) };
         let doc = tree.bytes();
-        let keys: Vec<Vec<u8>> = vec![key, b"arr".to_vec(), b"map".to_vec(), b"k0".to_vec()];
+        let keys: Vec<Vec<u8>> = vec![key, b"arr".to_vec(), b"map".to_vec(), b"k0".to_vec(), vec![], b"A".to_vec()];
         *acc.depths.entry(tree.depth()).or_insert(0) += 1;
         let job_seed = r.next_u64();
         let job = format!("JOB {} {} {} {} {} {} -", job_seed, 40, 65536, hex(&doc), keys.iter().map(|k| hex(k)).collect::<Vec<_>>().join(","), 2);
